@@ -94,6 +94,8 @@ type world struct {
 	prevOps   map[int]string
 	prevScqs  map[string]string
 	prevHints map[string]bool
+	// the last dump re-encoded as a delta without changes
+	lastNullDelta string
 }
 
 const t0Nanos = int64(1_000_000_000_000)
@@ -103,6 +105,7 @@ func newWorld(cfg cfgJSON) *world {
 	ct := newController(t0)
 	w := &world{ct: ct, uuids: &uuidSeq{}, cfg: cfg, t0: t0, started: map[int]bool{}, prevOps: map[int]string{}, prevScqs: map[string]string{}, prevHints: map[string]bool{}}
 	allow := auth.NewStaticAuthorizer(func(digest.InstanceName) bool { return true })
+	w.lastNullDelta = "(mkDelta 0 [] [] [] [] [] 0 [])"
 	w.bq = scheduler.NewInMemoryBuildQueue(
 		fakeCAS{ct}, fakeClock{ct}, w.uuids.next,
 		&scheduler.InMemoryBuildQueueConfiguration{
@@ -593,6 +596,7 @@ func (w *world) dumpTerm() (string, []hint, *scheduler.VerifState) {
 	}
 	gated := w.ct.gated()
 	sort.Ints(gated)
+	w.lastNullDelta = g.App("mkDelta", g.Z(d.Now), g.List(pqs), "[]", "[]", "[]", g.List(inflight), g.Nat(errorCode(d.Errors)), natList(gated))
 	return g.App("mkDelta", g.Z(d.Now), g.List(pqs), g.List(changedScqs), g.List(ops), natList(gone), g.List(inflight), g.Nat(errorCode(d.Errors)), natList(gated)), hints, d
 }
 
@@ -673,8 +677,21 @@ func runHistory(h *history, each func(w *world, o opJSON, d *scheduler.VerifStat
 	for _, o := range h.Ops {
 		ev := w.apply(o)
 		if w.ct.hung {
-			w.ct.shutdown()
-			return "", nil, fmt.Errorf("implementation did not become quiescent (hang) at op %d (%s)", len(events), o.K)
+			// Some call neither parked nor returned within the watchdog's time:
+			// the scheduler is wedged (e.g. a goroutine died holding the lock).
+			// This is an observation, not a harness error: the history ends here
+			// with the observation (OPanic "hang") and an unchanged dump (the dump
+			// hook needs the lock and must not be called any more).
+			obs := append(w.ct.takeObs(), "(OPanic \"hang\"%string)")
+			events = append(events, "("+ev+", [])")
+			obss = append(obss, g.List(obs))
+			dumps = append(dumps, w.lastNullDelta)
+			info.Events++
+			info.Ops[o.K]++
+			info.Outs["hang"]++
+			info.Nontrivial = executed && blocked
+			go w.ct.shutdown()
+			return g.App("mkCase", cfgTerm(h.Cfg), g.Z(t0Nanos), g.List(events), g.List(obss), g.List(dumps)), info, nil
 		}
 		obs := w.ct.takeObs()
 		if os.Getenv("SCHED_DEBUG") != "" {
